@@ -95,6 +95,12 @@ impl Log {
   pub fn evs(&self) -> Vec<Ev> {
     self.0.lock().unwrap_or_else(|e| e.into_inner()).evs.clone()
   }
+  /// drop the recorded events (scenario objects that keep a handle to this log may be leaked on purpose)
+  pub fn clear(&self) {
+    let mut g = self.0.lock().unwrap_or_else(|e| e.into_inner());
+    g.evs = Vec::new();
+    g.overlaps = Vec::new();
+  }
   pub fn len(&self) -> usize {
     self.0.lock().unwrap_or_else(|e| e.into_inner()).evs.len()
   }
